@@ -196,7 +196,7 @@ def gen(seed, index, tier):
             # come from what another worker is doing with the same or the previous selector)
             rq["burst"] = rng.choice([2, 2, 3])
         reqs.append(rq)
-    pre = rng.choice([0.0, 0.0, 0.0, 0.05, 0.2])
+    pre = rng.choice([0.0, 0.0, 0.05, 0.2, 0.2])
     if pre:
         # runs with line-level pre-emption: shorter, with more bursts, so that there is something to interleave.
         # Only requests that try to climb out come in bursts: their answer is not-found whatever the schedule,
@@ -204,8 +204,8 @@ def gen(seed, index, tier):
         reqs = reqs[:30]
         for rq in reqs:
             if "burst" not in rq and rq["shape"]["token"] and rq["shape"]["placement"] != "absolute" \
-                    and rng.random() < 0.5:
-                rq["burst"] = rng.choice([2, 2, 3])
+                    and rng.random() < 0.85:
+                rq["burst"] = rng.choice([2, 3, 3, 4])
     return {"requests": reqs, "handlers": rng.choice(["default", "full", "full"]), "preempt_p": pre,
             # (never a directory outside the scratch tree: a defect that creates files relative to the
             #  working directory must not litter the machine)
